@@ -304,7 +304,9 @@ func runC35(c *Ctx) {
 	// (6) API handler
 	if ah := c.MustFunc(pkgGate + ":(*ConfigHandlerImpl).ApplyConfig"); ah != nil {
 		n := 0
-		for _, ci := range callsIn(ah, func(nm string, cc *ssa.CallCommon) bool { return strings.HasSuffix(nm, "Gate).ApplyLiveConfigIfVersion") }) {
+		for _, ci := range callsIn(ah, func(nm string, cc *ssa.CallCommon) bool {
+			return strings.HasSuffix(nm, "Gate).ApplyLiveConfigIfVersion")
+		}) {
 			n++
 			isIfMatch := func(v ssa.Value) bool {
 				cl, ok := v.(*ssa.Call)
